@@ -165,8 +165,8 @@ CLAIMED = {
         technique="static abstract interpretation of operation histories + CFG dominance / must-pass-through rules",
         text="Histories (length 1-5; exhaustive over the stale-memo shapes, sampled beyond) of evaluation, late/early "
              "partials on kept objects, located/early differentials, as_expression (switching a late object to its "
-             "symbolic path), normalisation and failing calls are interpreted over a pool of 14 expressions that share "
-             "sub-expression objects at 5 concrete points (incl. failing ones and a missing coordinate); the final "
+             "symbolic path), normalisation and failing calls are interpreted over a pool of 15 expressions that share "
+             "sub-expression objects at 6 concrete points (incl. failing ones, a missing coordinate, and both at once); the final "
              "operation must give the answer of a fresh pool (numbers up to rounding, because a late object "
              "legitimately switches route). CFG rules carry this to any history: every root traversal call is dominated by a cache reset "
              "on the same receiver; each reset clears every memo _evaluate writes and recurses into every child on all "
